@@ -62,3 +62,12 @@ Proof.
   destruct (kfold (false, false) (k_winners mk) _) as [e brk]. cbn [fst] in F. subst e.
   destruct (zmem (b_odds b) (k_winners mk)); reflexivity.
 Qed.
+
+(* ---- x/bet/keeper/wager.go getMarket (generated over: the market stored under the wager's market id, whether it exists, the block time):
+   the first three admission tests of the model's wager — the market exists, is active, and is not past its end time ----------------------- *)
+Definition betmkt_state (found : bool) (mk : market) (now : Z) : S_betmkt :=
+  {| S_betmkt_Market := gm_of mk; S_betmkt_Found := found; S_betmkt_Now := now |}.
+Lemma gen_getMarket found mk now :
+  K_betmkt_getMarket (betmkt_state found mk now) =
+  if negb found then None else if negb (k_status mk =? MK_ACTIVE) then None else if k_end mk <? now then None else Some (gm_of mk).
+Proof. reflexivity. Qed.
